@@ -1,7 +1,7 @@
 (* C26: Symbol(s) / Keyword(s) succeed exactly when reading s / ":"+s yields that one model;
    String(s, brackets=d) versus the bracket string reading back. *)
 From HyV Require Import Base.Text Gen.LitTables Lit.Strings Lit.StringsSpec Lit.StringsProofs Lit.BracketProofs
-  Lit.Numeric Lit.NumericProofs Lit.Ctor.
+  Lit.Numeric Lit.NumericProofs Lit.NumericExt Lit.Ctor.
 From Coq Require Import ZArith Lia.
 
 (* ------------------------------------------------------------------ regenerated tables *)
@@ -115,10 +115,11 @@ Proof.
     { destruct DD as [D|A]; [apply CL; [exact D | reflexivity]|].
       apply all_dots_clean; [|exact A]. intros ->. unfold as_identifier in E. rewrite NN in E. simpl in E. discriminate E. }
     split; [exact C|]. unfold as_identifier in *. rewrite NN in *.
-    destruct (mem ch_dot s); [exact E|]. reflexivity.
+    destruct (mem ch_dot s) eqn:MD; [|reflexivity].
+    destruct DD as [D|A]; [discriminate|]. rewrite A. reflexivity.
   - intros [C E]. destruct (as_identifier_sym true s s E) as (_ & NN & DD & _).
-    unfold as_identifier in *. rewrite NN in *. destruct (mem ch_dot s).
-    + rewrite E. reflexivity.
+    unfold as_identifier in *. rewrite NN in *. destruct (mem ch_dot s) eqn:MD.
+    + destruct DD as [D|A]; [discriminate|]. rewrite A. reflexivity.
     + rewrite clean_illegal, C. reflexivity.
 Qed.
 
@@ -260,7 +261,7 @@ Proof.
   - intros H. destruct (mem ch_dot (takewhile ident_char s)) eqn:D; [discriminate|].
     pose proof (cons_ok_head_kw _ _ _ _ H) as E. inversion E as [E'].
     assert (A : forallb ident_char s = true) by (apply takewhile_full; rewrite E'; reflexivity).
-    rewrite E' in D. split; assumption.
+    rewrite !E'. rewrite E' in D. split; assumption.
 Qed.
 
 (* ------------------------------------------------------------------ bracket strings *)
@@ -331,3 +332,16 @@ Proof.
 Qed.
 
 End Proofs.
+
+(* the constructor accepts, the bracket string does not read back: three witnesses *)
+Lemma bracket_ctor_iff_witnesses :
+  (str_ok [120] [97; 93; 120] = true /\
+   read_top uni0 (fun _ => None) (render_bracket [120] [97; 93; 120]) <> ROk [FStr (VStr [97; 93; 120]) (Some [120])]) /\
+  (str_ok [120] [97; 13; 98] = true /\
+   read_top uni0 (fun _ => None) (render_bracket [120] [97; 13; 98]) = ROk [FStr (VStr [97; 10; 98]) (Some [120])]) /\
+  (str_ok [102] [97] = true /\
+   read_top uni0 (fun _ => None) (render_bracket [102] [97]) = ROther).
+Proof.
+  split; [|split]; split; try (vm_compute; reflexivity).
+  vm_compute. discriminate.
+Qed.
